@@ -271,6 +271,27 @@ func (fx *FX) applyContract(fr *frame, st *State, c *Contract, name string, call
 			st.reach = fx.define("r_pre", And(st.reach, g))
 		}
 	}
+	// panic exit: a callee that may panic (it runs user callbacks) unwinds through this function;
+	// the pending defers run and the ensures-on-panic clauses must hold
+	if c != nil && c.MayPanic && fr.top && fx.c != nil && len(fx.c.Panics) > 0 {
+		ps := st.clone()
+		ps.reach = fx.define("r_panic", st.reach)
+		if !c.Pure {
+			if c.HasMod {
+				fx.havoc(ps, c.Modifies)
+			} else {
+				fx.havoc(ps, []string{"*"})
+			}
+		}
+		fx.runDefers(fr, ps)
+		env := fx.newEnv(fr, ps)
+		env.old = fx.oldState
+		env.goal = true
+		for j, cl := range fx.c.Panics {
+			g := fx.evalBool(env, cl.Expr)
+			fx.oblige(ps, "post", fmt.Sprintf("ensures-on-panic#%d%s@call(%s)", j+1, lbl(cl), name), cl.Text, g, pos, propsOr(cl.Props, fx.c.Props))
+		}
+	}
 	old := st.clone()
 	switch {
 	case c == nil:
